@@ -13,6 +13,10 @@ for d in sorted(glob.glob("/verif/seeded/*/meta.json")):
         by = "; ".join("%s: %s" % (x["property"], ", ".join(sorted({o for f in x["failed_obligations"] for o in [f["obligations"][:90]]}))[:200]) for x in r["runs"] if x["detected"])
         if not r["detected"]:
             by = "; ".join("%s exit %d" % (x["property"], x["exit"]) for x in r["runs"])
+            if any(x["exit"] == 2 for x in r["runs"]):
+                det = "undecided"
+        if m.get("note"):
+            by += " -- " + m["note"][:260]
     rows.append("| %s | %s | %s | %s | %s |" % (m["seed"], m["property"], m["break_commit_subject"].replace("break: ", "")[:110], det, by))
 print("| seed | property | change | result | failing obligation(s) |\n|---|---|---|---|---|")
 print("\n".join(rows))
